@@ -386,6 +386,11 @@ func driveGen(args []string) error {
 			pre := []gstep{st[0], {kind: "call", call: c}}
 			w := mkCall("SetCReg")
 			w.C, w.Incr = []int{0, 0x40, 0x80, 0xc0, 0xff}, 1
+			if i%6 == 3 {
+				// the walk writes a blend, a palette reference or a register reference instead of a plain colour: whatever is
+				// written, an incrementing write moves the selector the helper later finds and restores
+				w.C = [][]int{{3, 0x40, 0x7f, 0x80, 0}, {1, 5, 0, 0, 0}, {2, 9, 0, 0, 0}, {3, 0xff, 0xc3, 0x23, 0}}[i/6%4]
+			}
 			wn := mkCall("SetNReg", 0.5)
 			wn.Incr = 1
 			for j := 0; j < k; j++ {
@@ -398,7 +403,10 @@ func driveGen(args []string) error {
 			for len(h.stops) > 58 || len(h.stops) == 0 {
 				h = randHelper(rng)
 			}
-			pre = append(pre, gstep{kind: "readC"}, gstep{kind: "helper", h: h})
+			if i%6 != 3 {
+				pre = append(pre, gstep{kind: "readC"})
+			}
+			pre = append(pre, gstep{kind: "helper", h: h}) // (i%6 == 3: the helper's own read-back is the first one after the walk)
 			st = append(pre, st[1:]...)
 		}
 		plainLog := "" // the rasteriser log of the pipeline without a logger: a DestinationLogger in the way changes nothing
